@@ -283,7 +283,7 @@ impl Evidence {
             "families": fams,
             "digest": format!("{:016x}", total.digest),
             "counters": total.counters,
-            "classes_observed": total.classes.iter().map(|(k, v)| (k.to_string(), json!(v.len()))).collect::<BTreeMap<_, _>>(),
+            "classes_observed": total.classes.iter().map(|(k, v)| (k.to_string(), if v.len() <= 40 { json!({"count": v.len(), "values": v}) } else { json!({"count": v.len()}) })).collect::<BTreeMap<_, _>>(),
             "known_findings_printed": self.known_findings,
         });
         for (k, v) in &self.extra {
